@@ -11,6 +11,7 @@ instruction in the first pipeline register.  Property theorems only; helper lemm
 import ArchSim.Lemmas.SimViews
 import ArchSim.Props.C11
 import ArchSim.Props.C09Views
+import ArchSim.Lemmas.CacheViews
 
 namespace ArchSim.Props.C11Views
 open ArchSim ArchSim.Cache ArchSim.Rv ArchSim.Repl ArchSim.SimViews ArchSim.Spec.Digits ArchSim.Spec.TagCache
@@ -54,6 +55,33 @@ theorem five_stage_fetch_highlight (p : Pipe.PSt) (c : ICache) (hc : p.st.imem.c
         ofDigits 2 t.toList = some (x.addr % 4294967296).toNat ∧ t.toList.length = 32 := by
   refine ⟨_, instrStats_some p.st.imem c _ hc, fun h => by simp [Stats.ofCounters, h], fun x h => ?_⟩
   exact ⟨bin32 x.addr, by simp [Stats.ofCounters, h], bin32_spec x.addr⟩
+
+/-- The instruction-cache TABLE is current (`get_instruction_cache_entries()`, model `CacheViews.instrCacheTable`): under
+    the cache invariant (which holds after any sequence of fetches, `C11.fetch_preserves_inv`), cell `j` of every valid
+    way shows the address `base + 4j` and the printed form of the instruction the instruction memory holds THERE (the
+    empty string behind the end of the program) — never an instruction of an earlier program. -/
+theorem icache_table_current {im : IMem} {c : ICache} (hinv : IInv im c) {k : Nat}
+    {cs : CSet Pol (Option Instr)} {w : Way (Option Instr)} (hk : c.sets[k]? = some cs) (hw : w ∈ cs.ways)
+    (hv : w.valid = true) (j : Nat) (hj : j < 2 ^ c.geo.blkBits) :
+    (CacheViews.blockRow c.geo CacheViews.showInstr w).cells[j]? =
+      some (CacheViews.toHexStr (w.base + j * 4) 32,
+            CacheViews.showInstr (im.instrAt ((w.base : Int) + 4 * (j : Int)))) := by
+  obtain ⟨_, hvals⟩ := (hinv.sets k cs hk).ways w hw hv
+  rw [ArchSim.Lemmas.CacheViews.blockRow_valid c.geo CacheViews.showInstr w hv]
+  have hget := iBlockFromMem_get im w.base c.geo.words 0 j (by simpa [Geo.words] using hj)
+  simp only [List.getElem?_mapIdx, hvals, hget, Option.map_some]
+  simp
+
+/-- After a reset (every `load_program`, successful or not) every way of the table is blank. -/
+theorem icache_table_blank_after_reset (c : ICache) (cs : CSet Pol (Option Instr)) (hcs : cs ∈ (ICache.reset c).sets)
+    (w : Way (Option Instr)) (hw : w ∈ cs.ways) :
+    (CacheViews.blockRow c.geo CacheViews.showInstr w).valid = "0" ∧
+    (CacheViews.blockRow c.geo CacheViews.showInstr w).cells = List.replicate (2 ^ c.geo.blkBits) ("", "") := by
+  have hv : w.valid = false := by
+    have := (C11.reset_clears c).1 cs hcs w hw
+    simpa using this
+  rw [ArchSim.Lemmas.CacheViews.blockRow_invalid c.geo CacheViews.showInstr w hv]
+  exact ⟨rfl, rfl⟩
 
 /-! ### non-vacuity -/
 
